@@ -90,4 +90,5 @@ def begin_run(np_seed=0):
     import numpy as np
 
     UUID_SEAM.reset(0)
-    np.random.seed(np_seed % (2**32))
+    if np_seed is not None:  # None: the history owns the global RNG state (C16)
+        np.random.seed(np_seed % (2**32))
